@@ -50,7 +50,9 @@ def run(chk, tier):
     n = 40 if tier == "quick" else 250
     progs = []
     for i in range(n):
-        g = progen.ProgGen(((chk.seed + 29) % 1000003) * 100003 + i, features=HEAVY, size=16)
+        # every second program also allocates through several values at once, collect forms and private representations
+        g = progen.ProgGen(((chk.seed + 29) % 1000003) * 100003 + i,
+                           features=HEAVY + (["tup", "coll", "filt", "adt"] if i % 2 else []), size=16)
         progs.append(g.program("a%d" % i))
     fam = progcheck.Family(chk, progs, "alloc", workers=vlib.NCPU, timeout=1500)
     scheds = schedules(tier)
